@@ -16,7 +16,8 @@ BOUNDS = {
              'stored-block subsets symbolic for selected ops; Tier B (concrete charge structures, symbolic real/complex entries): '
              'enumerated tiny + seed-drawn structures, rank<=3, <=4 blocks per leg incl. size-0 blocks, duplicates, unsorted, '
              'missing blocks, nonzero qtotal, mods [],[1],[2],[3],[1,2],[5]; depth-2 programs over a reduced catalogue',
-    'thorough': 'Tier A additionally rank 3 and 2 charges; Tier B more drawn structures, rank<=4, all variants, all ordered pairs of the reduced catalogue',
+    'thorough': 'Tier A: third qconj pattern and all variants (except setitem/int_first_npc: Tier B only), symbolic stored-block subsets for mod 1,2,3; '
+                'Tier B: 28 structures, rank<=4, primary operand <= 100 entries, all variants; all ordered pairs of the reduced catalogue on structures with <= 24 entries',
 }
 OUTSIDE = 'float32/complex64/int dtype promotion, float rounding; compiled kernels (C04); factorisations (C05)'
 STUBS = ['BLAS contract stub (gemm/gemv/dotu/dotc on object arrays)', 'QTYPE=object (Tier A)', 'Array.conj hook for object dtype',
@@ -30,11 +31,8 @@ def setup_symbolic(case):
 
 def run_one(ctx, W, name, v, tag=None):
     tag = tag or (name if v == 'd' else f'{name}/{v}')
-    try:
-        sc = C.OPS[name].build(W, v)
-    except C.Skip:
-        ctx.note('skipped')
-        ctx.prove(True, 'scenario not applicable')
+    sc = C.build_scenario(ctx, W, name, v)
+    if sc is None:
         return None, None
     before = [np.array(C.dense(o)) for o in sc.operands]
     ok, res = C.execute(ctx, sc, tag)
@@ -163,7 +161,7 @@ PAIR_SECOND_A = [('tensordot', 'int1'), ('add', 'same'), ('combine_legs', 'all')
 
 def CASES(tier, seed):
     cases = []
-    opsA = [(n, v) for n, s in C.OPS.items() if 'A' in s.tiers and 'C01' in s.props for v in _variants(s, tier)]
+    opsA = [(n, v) for n, s in C.OPS.items() if 'A' in s.tiers and 'C01' in s.props for v in _variants(s, tier) if (n, v) not in C.TIER_A_EXCLUDED]
     opsB = [(n, v) for n, s in C.OPS.items() if 'B' in s.tiers and 'C01' in s.props for v in s.variants]
     OA = dict(max_paths=60000, max_wall_s=200 if tier == 'quick' else 1500, validate_paths=2, hard_timeout_s=230 if tier == 'quick' else 1700)
     for si, st in enumerate(structs_A(tier)):
